@@ -2,7 +2,7 @@
    C04 installed => verified, rejected changes nothing; C05 slots = latest,
    view = spec_view, serials count installs; C09 never early, atomic switch,
    exact suppression.  All statements quantify over arbitrary input lists. *)
-From Coq Require Import List NArith Bool Lia.
+From Coq Require Import List NArith Bool Lia Arith.
 From Dials Require Import Base.Outcome Core.CbMgr Core.Monitor.
 Import ListNotations.
 Open Scope N_scope.
@@ -472,6 +472,77 @@ Proof.
       assert (G2 : forall (l : list (cb_event cfg)) x y, x <= y -> last_announced x l <= last_announced y l).
       { intros. destruct (G l x y H); lia. }
       specialize (G2 b lo hi H3). lia.
+Qed.
+
+(* ---------- C07: a nil reply comes right after the store of that very update ---------- *)
+
+Lemma final_cur_is_cur_after : forall ins cur st, final_cur cur st ins = cur_after cur (trace cur st ins).
+Proof.
+  induction ins as [|i r IH]; intros; [reflexivity|].
+  rewrite final_cur_cons, trace_cons, cur_after_app. apply IH.
+Qed.
+
+(* in a list of monitor actions, every "installed <- nil" sits immediately
+   after the Store and the Events try-send of one and the same config *)
+Definition nil_reply_ok (l : list mon_act) : Prop :=
+  forall j rid, nth_error l j = Some (AReply rid RNil) ->
+  exists v, (2 <= j)%nat /\ nth_error l (j - 2) = Some (AStore v) /\ nth_error l (j - 1) = Some (ATryUpdates v).
+
+Lemma nil_reply_ok_app : forall a b, nil_reply_ok a -> nil_reply_ok b -> nil_reply_ok (a ++ b).
+Proof.
+  intros a b Ha Hb j rid H.
+  destruct (Nat.lt_ge_cases j (length a)) as [Hlt|Hge].
+  - rewrite nth_error_app1 in H by assumption. destruct (Ha j rid H) as [v [H2 [H3 H4]]].
+    exists v. repeat split; [assumption| |]; rewrite nth_error_app1 by lia; assumption.
+  - rewrite nth_error_app2 in H by assumption. destruct (Hb _ rid H) as [v [H2 [H3 H4]]].
+    exists v. split; [lia|]. split; rewrite nth_error_app2 by lia.
+    + replace (j - 2 - length a)%nat with (j - length a - 2)%nat by lia. assumption.
+    + replace (j - 1 - length a)%nat with (j - length a - 1)%nat by lia. assumption.
+Qed.
+
+Lemma nil_reply_ok_prefix : forall a b, nil_reply_ok (a ++ b) -> nil_reply_ok a.
+Proof.
+  intros a b H j rid Hj.
+  assert (Hlt : (j < length a)%nat) by (apply nth_error_Some; congruence).
+  destruct (H j rid) as [v [H2 [H3 H4]]]; [rewrite nth_error_app1 by assumption; assumption|].
+  exists v. split; [assumption|]. rewrite nth_error_app1 in H3, H4 by lia. auto.
+Qed.
+
+Ltac scan_list j H := repeat (destruct j as [|j]; cbn in H; try discriminate H).
+
+Lemma nil_reply_ok_step : forall cur st i, nil_reply_ok (snd (recv cur st i)).
+Proof.
+  intros cur st i j rid0 H. destruct i as [src x rid|src|src|rid|]; cbn [mon_recv] in *.
+  - destruct (stack _) as [c|].
+    + destruct (m_skip st); [|destruct (verify c)]; destruct rid as [r|]; cbn [snd reply_to app] in *.
+      * scan_list j H. inversion H; subst. exists (fst cur + 1, c). cbn. auto.
+      * scan_list j H.
+      * scan_list j H. inversion H; subst. exists (fst cur + 1, c). cbn. repeat split; auto; lia.
+      * scan_list j H.
+      * scan_list j H.
+      * scan_list j H.
+    + destruct rid as [r|]; cbn [snd reply_to app] in *; scan_list j H.
+  - cbn [snd] in *. destruct (src_err_delivered p (m_skip st)); scan_list j H.
+  - cbn [snd] in *. destruct (existsb _ _); scan_list j H.
+  - destruct (m_skip st); [destruct (verify (snd cur))|]; cbn [snd] in *; scan_list j H.
+  - cbn [snd] in *. scan_list j H.
+Qed.
+
+Theorem reply_after_store_l : forall ins cur st, nil_reply_ok (trace cur st ins).
+Proof.
+  induction ins as [|i r IH]; intros cur st.
+  - intros j rid H. destruct j; discriminate H.
+  - rewrite trace_cons. apply nil_reply_ok_app; [apply nil_reply_ok_step|apply IH].
+Qed.
+
+(* a rejected update is answered with its error and nothing is stored in that batch *)
+Theorem error_reply_no_store_l : forall cur st src v rid,
+  rejected st src v = true -> stores_of (snd (recv cur st (InUpdate src v (Some rid)))) = [] /\
+  In (AReply rid (snd (rej_kind st src v))) (snd (recv cur st (InUpdate src v (Some rid)))).
+Proof.
+  intros cur st src v rid H.
+  pose proof (rejected_changes_nothing_l cur st src v (Some rid) H) as R. cbn zeta in R.
+  destruct R as [R1 [_ [_ [_ [R5 _]]]]]. split; [exact R1|]. apply (R5 rid eq_refl).
 Qed.
 
 (* ---------- C09 ---------- *)
